@@ -198,6 +198,11 @@ def keyid_boundary_mutations(b: Base, rng: random.Random) -> t.Iterator[t.Tuple[
     # SID strings in the descriptor
     for sid in ("S-1-5-4294967296", "S-1-281474976710656-1", "S-1-18446744073709551616-1", "S-1-5", "S-1-5-" + "-".join(["1"] * 16), "S-1-5-١٢", "S-1-5-18\n", "", "S-1-5--1", "S-1-5-" + "9" * 5000, "S-1-5-1" + "-1" * 3000, "\x00", "S-1-5-18\x00"):
         yield f"sid-{sid[:20]!r}", rebuild(p["key_identifier"], sid=sid)
+    for pos in range(15):
+        subs = ["7"] * 15
+        subs[pos] = str(2**32 + pos)
+        yield f"sid-sub{pos + 1}-of-15-out-of-range", rebuild(p["key_identifier"], sid="S-1-5-" + "-".join(subs))
+        yield f"sid-sub{pos + 1}-of-{pos + 1}-out-of-range", rebuild(p["key_identifier"], sid="S-1-5-" + "-".join(subs[: pos + 1]))
     yield "descriptor-type-sddl", rebuild(p["key_identifier"], descriptor=cms.protection_descriptor("O:SYG:SYD:(A;;CCDC;;;WD)", "1.3.6.1.4.1.311.74.1.5", "SDDL"))
     yield "descriptor-bad-utf8", rebuild(p["key_identifier"], descriptor=der.enc_seq(der.enc_oid(cms.OID_SID), der.enc_seq(der.enc_seq(der.enc_seq(der.tlv(0, False, 12, b"SID"), der.tlv(0, False, 12, b"\xff\xfe\xfd"))))))
     yield "descriptor-empty", rebuild(p["key_identifier"], descriptor=b"")
